@@ -64,7 +64,7 @@ class _None(Sort):
 
     def z3(self):
         if _None._s is None:
-            _None._s, _ = z3.EnumSort("NoneT", ["none_v"])
+            _None._s, (_None._v,) = z3.EnumSort("NoneT", ["none_v"])
         return _None._s
 
     def fresh(self, base="v"):
@@ -80,7 +80,7 @@ NONE = _None()
 
 def NONEV():
     NONE.z3()
-    return V(NONE, z3.Const("none_v", NONE.z3()))
+    return V(NONE, _None._v)
 
 
 _dt_cache = {}
